@@ -9,6 +9,8 @@
 (*        processed the server's seed)                                         *)
 (*   Write cid n pieces ret  one application Write of n bytes: the sizes of    *)
 (*        the writes it made to the network, and what it returned              *)
+(*   Keep cid equal          the SERVER's table is unchanged after a peer sent   *)
+(*        it a PRNG-seed packet                                                *)
 (*   Adopt cid equal         the client's table after the seed frame equals    *)
 (*        the server's                                                         *)
 (*   Panic cid               Write panicked (never accepted unless the named   *)
@@ -68,13 +70,15 @@ TWrite == /\ Is("Write") /\ l' = l + 1
                                 /\ (e.n = 0 => tot = 0)
           /\ UNCHANGED <<table, mode>>
 TAdopt == Is("Adopt") /\ l' = l + 1 /\ Trace[l].equal /\ UNCHANGED <<table, mode>>
+\* a bridge keeps ITS seeded distribution whatever a peer sends it (only clients adopt the server's seed)
+TKeep == Is("Keep") /\ l' = l + 1 /\ Trace[l].equal /\ UNCHANGED <<table, mode>>
 TPanic == /\ Is("Panic") /\ l' = l + 1
           /\ ZeroPanicAdmitted /\ mode[Trace[l].cid] = 2 /\ 0 \in table[Trace[l].cid]
           /\ UNCHANGED <<table, mode>>
 THang == /\ Is("Hang") /\ l' = l + 1
          /\ ZeroOnlyHangAdmitted /\ mode[Trace[l].cid] = 2 /\ table[Trace[l].cid] = {0}
          /\ UNCHANGED <<table, mode>>
-TNext == TReset \/ TPad \/ TConn \/ TWrite \/ TAdopt \/ TPanic \/ THang
+TNext == TKeep \/ TReset \/ TPad \/ TConn \/ TWrite \/ TAdopt \/ TPanic \/ THang
 TraceSpec == TInit /\ [][TNext]_tvars
 HW == TLCSet(1, IF l - 1 > TLCGet(1) THEN l - 1 ELSE TLCGet(1))
 TraceAccepted == IF TLCGet(1) = Len(Trace) THEN TRUE ELSE PrintT(<<"REJECTED_AFTER", TLCGet(1)>>) /\ FALSE
